@@ -30,13 +30,150 @@ func lwClip(b []byte) string {
 	return fmt.Sprintf("%q", s)
 }
 
+// lwRefField: one member of the JSON object the SPEC demands for a struct value: the key
+// (from the field name / json tag of the spec by gombok's documented rule) and whether the
+// member is dropped when the value is empty (0 never, 1 omitempty, 2 the rule leaves it open).
+type lwRefField struct {
+	idx  int // index into the struct's named fields
+	key  string
+	omit int
+}
+
+// lwEmptyJSON is encoding/json's notion of an empty value (omitempty).
+func lwEmptyJSON(x any) bool {
+	v := reflect.ValueOf(x)
+	if !v.IsValid() {
+		return true
+	}
+	switch v.Kind() {
+	case reflect.Array, reflect.Map, reflect.Slice, reflect.String:
+		return v.Len() == 0
+	case reflect.Bool, reflect.Int, reflect.Int8, reflect.Int16, reflect.Int32, reflect.Int64,
+		reflect.Uint, reflect.Uint8, reflect.Uint16, reflect.Uint32, reflect.Uint64, reflect.Uintptr,
+		reflect.Float32, reflect.Float64, reflect.Interface, reflect.Pointer:
+		return v.IsZero()
+	}
+	return false
+}
+
+type lwMember struct {
+	k string
+	v json.RawMessage
+}
+
+// lwMembers splits a JSON object into its members, in document order.
+func lwMembers(b []byte) ([]lwMember, error) {
+	dec := json.NewDecoder(bytes.NewReader(b))
+	t, err := dec.Token()
+	if err != nil {
+		return nil, err
+	}
+	if t != json.Delim('{') {
+		return nil, errors.New("not a JSON object")
+	}
+	var out []lwMember
+	for dec.More() {
+		t, err := dec.Token()
+		if err != nil {
+			return nil, err
+		}
+		k, ok := t.(string)
+		if !ok {
+			return nil, errors.New("member name is not a string")
+		}
+		var raw json.RawMessage
+		if err := dec.Decode(&raw); err != nil {
+			return nil, err
+		}
+		out = append(out, lwMember{k, raw})
+	}
+	return out, nil
+}
+
+// refObject: Marshal(x) must be the object the spec demands — one member per field that is
+// not underscore-prefixed, in declaration order, named by the spec, holding the field's own
+// encoding; omitempty members absent exactly when empty. Nothing here looks at AsMutable().
+// Returns the full reference document (no member omitted) for the decode direction.
+func (p *lwRep) refObject(m *lwMeta, b []byte, fx []any, ref []lwRefField) []byte {
+	got, err := lwMembers(b)
+	if err != nil {
+		p.fail(m.name, "json-reference-object", "-", "-", "Marshal(x) is not a JSON object ("+err.Error()+"): "+lwClip(b))
+		return nil
+	}
+	var doc bytes.Buffer
+	doc.WriteByte('{')
+	gi := 0
+	bad := false
+	for n, f := range ref {
+		enc, err := json.Marshal(fx[f.idx])
+		if err != nil {
+			return nil // the field value has no encoding of its own: no reference
+		}
+		if n > 0 {
+			doc.WriteByte(',')
+		}
+		kb, _ := json.Marshal(f.key)
+		doc.Write(kb)
+		doc.WriteByte(':')
+		doc.Write(enc)
+		if bad {
+			continue
+		}
+		empty := lwEmptyJSON(fx[f.idx])
+		if gi < len(got) && got[gi].k == f.key {
+			if empty && f.omit == 1 {
+				p.fail(m.name, "json-reference-object", m.names[f.idx], m.kinds[f.idx], "member "+f.key+" is present ("+lwClip(got[gi].v)+") although the field is empty and its tag rule says omitempty; Marshal(x)="+lwClip(b))
+			} else if !bytes.Equal(got[gi].v, enc) {
+				p.fail(m.name, "json-reference-object", m.names[f.idx], m.kinds[f.idx], "member "+f.key+" is "+lwClip(got[gi].v)+" but field "+m.names[f.idx]+" = "+lwShow(fx[f.idx])+" encodes as "+lwClip(enc)+"; Marshal(x)="+lwClip(b))
+			}
+			gi++
+			continue
+		}
+		if empty && f.omit != 0 {
+			continue
+		}
+		p.fail(m.name, "json-reference-object", m.names[f.idx], m.kinds[f.idx], "member "+f.key+" (field "+m.names[f.idx]+" = "+lwShow(fx[f.idx])+", encoding "+lwClip(enc)+") is missing or out of order; Marshal(x)="+lwClip(b))
+		bad = true
+	}
+	if !bad && gi != len(got) {
+		p.fail(m.name, "json-reference-object", "-", "-", "unexpected member "+got[gi].k+" = "+lwClip(got[gi].v)+"; Marshal(x)="+lwClip(b))
+	}
+	doc.WriteByte('}')
+	return doc.Bytes()
+}
+
+type lwKept struct {
+	ret, cp []byte
+	what    string
+}
+
+func lwScribble(b []byte) {
+	for i := range b {
+		b[i] = "#[{\"x\\0"[i%7]
+	}
+}
+
 func lwJSONLaws[T any](p *lwRep, m *lwMeta, r *lwRand, faithful, jsonok bool, n, hostile int,
 	gen func(*lwRand, bool) T, fields func(T) []any, asMut func(T) any,
-	direct func(*T, []byte) error, marshalDirect func(T) ([]byte, error)) {
+	direct func(*T, []byte) error, marshalDirect func(T) ([]byte, error), rfs []lwRefField, refOK bool) {
 
+	napp := 0
+	for _, a := range m.app {
+		if a {
+			napp++
+		}
+	}
+	// second stream: values with a non-zero, non-empty value in EVERY field (a dropped or
+	// defaulted field must be visible whatever its position); does not consume from r
+	rz := &lwRand{s: r.s ^ 0x5851f42d4c957f2d, json: true, nz: true}
+	var kept []lwKept
 	var docs [][]byte
-	for it := 0; it < n; it++ {
-		x := gen(r, false)
+	for it := 0; it < n+n/4+5; it++ {
+		src := r
+		if it >= n {
+			src = rz
+		}
+		x := gen(src, false)
 		var b []byte
 		err, pan := LwCatch(func() error { var e error; b, e = json.Marshal(x); return e })
 		if pan != "" {
@@ -58,10 +195,26 @@ func lwJSONLaws[T any](p *lwRep, m *lwMeta, r *lwRand, faithful, jsonok bool, n,
 		if b3, err3 := json.Marshal(&x); err3 != nil || !bytes.Equal(b, b3) {
 			p.fail(m.name, "json-marshal-pointer", "-", "-", "Marshal(x)="+lwClip(b)+" Marshal(&x)="+lwClip(b3))
 		}
-		if b4, err4 := marshalDirect(x); err4 != nil || !bytes.Equal(b, b4) {
+		// direct call: the returned slice is kept AS RETURNED (no copy) next to a copy taken now;
+		// all later Marshal calls of this loop run while it is held, and it is re-compared at the end
+		b4, err4 := marshalDirect(x)
+		if err4 != nil || !bytes.Equal(b, b4) {
 			p.fail(m.name, "json-marshal-direct", "-", "-", "Marshal(x)="+lwClip(b)+" x.MarshalJSON()="+lwClip(b4))
 		}
+		if err4 == nil && len(kept) < 400 {
+			kept = append(kept, lwKept{b4, append([]byte(nil), b4...), "x.MarshalJSON()"})
+			if b5, err5 := marshalDirect(x); err5 == nil {
+				kept = append(kept, lwKept{b5, append([]byte(nil), b5...), "second x.MarshalJSON() of the same value"})
+			}
+			p.stat("json.alias.marshal-results-kept", 2)
+		}
 		p.stat("json.marshalled", 1)
+		fx := fields(x)
+		var refDoc []byte
+		if refOK {
+			refDoc = p.refObject(m, b, fx, rfs)
+			p.stat("json.reference-object.struct-values", 1)
+		}
 		var y T
 		err, pan = LwCatch(func() error { return json.Unmarshal(b, &y) })
 		if pan != "" {
@@ -74,8 +227,33 @@ func lwJSONLaws[T any](p *lwRep, m *lwMeta, r *lwRand, faithful, jsonok bool, n,
 			p.fail(m.name, "json-unmarshal-panic", "-", "-", pan2+" on "+lwClip(b))
 			continue
 		}
+		// the same input buffer decoded twice by direct calls; the buffer must come back unchanged,
+		// and overwriting it afterwards must not change what was decoded (no retained reference:
+		// "UnmarshalJSON must copy the JSON data if it wishes to retain the data after returning")
+		if err2 == nil {
+			in := append([]byte(nil), b...)
+			var y3, y4 T
+			e3, pan3 := LwCatch(func() error { return direct(&y3, in) })
+			e4, pan4 := LwCatch(func() error { return direct(&y4, in) })
+			if pan3 != "" || pan4 != "" {
+				p.fail(m.name, "json-unmarshal-panic", "-", "-", pan3+pan4+" on "+lwClip(b))
+			} else if e3 != nil || e4 != nil {
+				p.fail(m.name, "json-unmarshal-same-input-twice", "-", "-", fmt.Sprintf("UnmarshalJSON accepted %s once and failed on the same buffer later: %v %v", lwClip(b), e3, e4))
+			} else {
+				if !bytes.Equal(in, b) {
+					p.fail(m.name, "json-unmarshal-modifies-input", "-", "-", "UnmarshalJSON changed the caller's input buffer from "+lwClip(b)+" to "+lwClip(in))
+				}
+				if j := lwEqAll(fields(y4), fields(y3)); j >= 0 {
+					p.fail(m.name, "json-unmarshal-same-input-twice", m.names[j], m.kinds[j], "decoding the same buffer twice gives "+lwShow(fields(y3)[j])+" then "+lwShow(fields(y4)[j])+" on "+lwClip(b))
+				}
+				lwScribble(in)
+				if j := lwEqAll(fields(y3), fields(y2)); j >= 0 {
+					p.fail(m.name, "json-unmarshal-retains-input", m.names[j], m.kinds[j], "after the caller overwrote its input buffer, field "+m.names[j]+" of the decoded value changed to "+lwShow(fields(y3)[j])+" (decoded from an untouched copy: "+lwShow(fields(y2)[j])+"); input "+lwClip(b))
+				}
+				p.stat("json.alias.unmarshal-inputs-overwritten", 1)
+			}
+		}
 		if faithful {
-			fx := fields(x)
 			if err != nil {
 				p.fail(m.name, "json-roundtrip", "-", "-", "Unmarshal(Marshal(x)) fails: "+err.Error()+" on "+lwClip(b))
 			} else {
@@ -86,10 +264,33 @@ func lwJSONLaws[T any](p *lwRep, m *lwMeta, r *lwRand, faithful, jsonok bool, n,
 			} else {
 				p.appOnly(m, "json-roundtrip-direct", fields(y2), fx)
 			}
+			if refDoc != nil {
+				// decode direction against the reference document (every member present)
+				var y5 T
+				e5, pan5 := LwCatch(func() error { return json.Unmarshal(refDoc, &y5) })
+				if pan5 != "" {
+					p.fail(m.name, "json-unmarshal-panic", "-", "-", pan5+" on "+lwClip(refDoc))
+				} else if e5 != nil {
+					p.fail(m.name, "json-reference-decode", "-", "-", "Unmarshal of the reference object fails: "+e5.Error()+" on "+lwClip(refDoc))
+				} else {
+					p.appOnly(m, "json-reference-decode", fields(y5), fx)
+				}
+				p.stat("json.reference-decode.struct-values", 1)
+			}
 			p.stat("json.roundtrip.struct-values", 1)
+			allNZ := true
 			for j := range fx {
 				if m.app[j] {
 					p.stat("json.roundtrip.field."+m.kinds[j], 1)
+					if lwZeroish(reflect.ValueOf(fx[j])) {
+						allNZ = false
+					}
+				}
+			}
+			if allNZ {
+				p.stat("json.roundtrip.all-fields-nonzero", 1)
+				if napp >= 21 {
+					p.stat(fmt.Sprintf("json.wide.fields-%d.all-nonzero-values", napp), 1)
 				}
 			}
 		} else {
@@ -97,6 +298,12 @@ func lwJSONLaws[T any](p *lwRep, m *lwMeta, r *lwRand, faithful, jsonok bool, n,
 		}
 		if len(docs) < 48 {
 			docs = append(docs, b)
+		}
+	}
+	for _, k := range kept {
+		if !bytes.Equal(k.ret, k.cp) {
+			p.fail(m.name, "json-marshal-result-changed-later", "-", "-", "the []byte returned by "+k.what+" was "+lwClip(k.cp)+" when it was returned and is "+lwClip(k.ret)+" after later Marshal calls: the result aliases storage that is reused")
+			break
 		}
 	}
 	if _, pan := LwCatch(func() error { return direct(nil, []byte("{}")) }); pan != "" {
